@@ -44,6 +44,10 @@ def _neighbours(v):
         elif isinstance(v, float) and math.isfinite(v):
             out += [float(np.nextafter(v, -math.inf)),
                     float(np.nextafter(v, math.inf)), v - 1.0, v + 1.0]
+            if abs(v) < 2 ** 62:
+                # a float bound on integer data: the integers around it
+                lo = int(math.floor(v))
+                out += [lo - 1, lo, lo + 1, lo + 2]
         elif isinstance(v, pd.Timestamp):
             out += [v - TD(1, "ns"), v + TD(1, "ns"), v - TD(1, "s"),
                     v + TD(1, "s"), v.floor("s")]
